@@ -18,7 +18,7 @@ LINSP = z3.Function("linspace", z3.RealSort(), z3.RealSort(), z3.IntSort(), z3.I
 def flog10(a):
     nan = z3.Or(a.nan, z3.And(a.inf, z3.Not(a.pos)), z3.And(z3.Not(a.inf), a.val < 0))
     inf = z3.Or(z3.And(a.inf, a.pos), VV._is_zero(a))
-    return VFloat(VV.LOG10(a.val), nan, inf, a.inf, a.cplx)
+    return VFloat(VV.LOG10(a.val), nan, inf, a.inf, VV._c1(7, a))
 
 
 def _real_seq(eng, st, v, node, what):
